@@ -4,7 +4,8 @@
    several deliveries and both links, duplicates, terminal states settled and unsettled, the
    non-terminal `received` state, out of order.  SndMode / RcvMode select the settle modes. *)
 EXTENDS Integers, Sequences, TLC, Json
-CONSTANTS Depth, RcvMode, SndMode, PeerH1, PeerH3, Side   \* PeerH*: the handles the peer assigns to the two links
+CONSTANTS Depth, RcvMode, SndMode, PeerRcv, PeerH1, PeerH3, Side   \* PeerRcv: the rcv-settle-mode the receiving peer states in its attach (the mode in use; may differ from what the sender proposed)
+\*   \* PeerH*: the handles the peer assigns to the two links
 
 Alphabet == {"Send1", "Send3", "SendSettled", "D0acc", "D1rej", "D01rel", "DAllmod", "D2acc", "D0accU", "D1relU", "D0recvU", "Await0", "Await1", "Await2",
              \* the first link is closed with its deliveries unsettled: a later range that also names them must still resolve the other link's
@@ -27,10 +28,10 @@ Prefix ==
            [e |-> "AAcceptSession", s |-> "s1", cfg |-> [noi |-> 1000, iw |-> 100, ow |-> 100]],
            [e |-> "PFrame", perf |-> "begin", ch |-> 3, f |-> [rch |-> -1, noi |-> 0, iw |-> 5000, ow |-> 100]] >>)
   \o << Att("L1"),
-        [e |-> "PFrame", perf |-> "attach", ch |-> 3, f |-> [name |-> "L1", h |-> PeerH1, role |-> "r", snd |-> SndMode, rcv |-> RcvMode]],
+        [e |-> "PFrame", perf |-> "attach", ch |-> 3, f |-> [name |-> "L1", h |-> PeerH1, role |-> "r", snd |-> SndMode, rcv |-> PeerRcv]],
         LFlow(PeerH1),
         Att("L3"),
-        [e |-> "PFrame", perf |-> "attach", ch |-> 3, f |-> [name |-> "L3", h |-> PeerH3, role |-> "r", snd |-> SndMode, rcv |-> RcvMode]],
+        [e |-> "PFrame", perf |-> "attach", ch |-> 3, f |-> [name |-> "L3", h |-> PeerH3, role |-> "r", snd |-> SndMode, rcv |-> PeerRcv]],
         LFlow(PeerH3) >>
 RECURSIVE Body(_, _, _)
 Body(sc, i, ns) ==
